@@ -210,7 +210,9 @@ func rulesC16(c *Ctx) {
 		fb := 0
 		for _, w := range th.FieldWrites(th.Body, contentF, false) {
 			guards := g.GuardsAt(g.VertexOf(w))
-			isNilBranch := hasAtom(guards, func(a Atom) bool { return AtomSaysNil(a, true, func(e ast.Expr) bool { return th.IsField(e, contentF) }) })
+			isNilBranch := hasAtom(guards, func(a Atom) bool {
+				return AtomSaysNil(a, true, func(e ast.Expr) bool { return th.IsField(e, contentF) })
+			})
 			notObj := hasAtom(guards, func(a Atom) bool {
 				ce, ok := a.E.(*ast.CallExpr)
 				return ok && !a.Val && th.Callee(ce) != nil && th.Callee(ce).Name() == "isObjectJSON"
@@ -269,7 +271,9 @@ func rulesC16(c *Ctx) {
 		// every success return after Validate
 		for i, r := range successReturns(as) {
 			rv := ag.VertexOf(r)
-			if hasAtom(ag.GuardsAt(rv), func(a Atom) bool { return AtomSaysNil(a, true, func(e ast.Expr) bool { return as.ObjOf(e) == types.Object(as.NonRecvParams()[1]) }) }) {
+			if hasAtom(ag.GuardsAt(rv), func(a Atom) bool {
+				return AtomSaysNil(a, true, func(e ast.Expr) bool { return as.ObjOf(e) == types.Object(as.NonRecvParams()[1]) })
+			}) {
 				c.Ok("applySchema:return#"+itoa(i)+"(no schema)", as, r, "no schema to apply")
 				continue
 			}
